@@ -204,6 +204,11 @@ var Steps = []Step{
 	st("m.krange", "M_K", "S", "for k$i := range $x {\n$y = k$i\n}"),
 	st("m.vrange", "M_V", "S", "for _, v$i := range $x {\n$y = v$i\n}"),
 	st("m.vcommaok", "M_V", "S", "v$i, ok$i := $x[\"k\"]\n_ = ok$i\n$y = v$i"),
+	// data that is the SECOND result of a call, read back through a multiplexed tuple (comma-ok lookup, range, select)
+	st("m.tupCommaok", "S", "S", "_, t$i := $Ptwo1($x)\nm$i := map[string]string{\"k\": t$i}\nv$i, ok$i := m$i[\"k\"]\n_ = ok$i\n$y = v$i", dTwo1),
+	st("a.tupRange", "S", "S", "_, t$i := $Ptwo1($x)\nfor _, e$i := range []string{t$i} {\n$y = e$i\n}", dTwo1),
+	st("m.tupRange", "S", "S", "_, t$i := $Ptwo1($x)\nfor _, e$i := range map[string]string{\"k\": t$i} {\n$y = e$i\n}", dTwo1),
+	st("h.tupSelRecv", "S", "S", "_, t$i := $Ptwo1($x)\nc$i := make(chan string, 1)\nc$i <- t$i\nselect {\ncase r$i, ok$i := <-c$i:\n\t_ = ok$i\n\t$y = r$i\ndefault:\n}", dTwo1),
 	st("m.del", "M_V", "M_V", "delete($x, \"k\")\n$y = $x").drop(),
 	// interface
 	st("i.box", "S", "I_S", "$y = $x"),
